@@ -15,11 +15,14 @@
    Next = decode ANY symbol s of the alphabet: r' = RUpdate(r, s), g' = GUpdate(g, s).
 
    Two ways to run it:
-     MC_Codec_Lh1Lock.cfg    depth-bounded: VIEW <<inst, r, g, n>>, CONSTRAINT n < inst.depth.
-                             Every symbol sequence of length <= depth is a distinct path (TLC
-                             evaluates invariants on the successors it then discards for the
-                             constraint, so sequences of length exactly depth are checked too).
-     MC_Codec_Lh1Lock_t.cfg  UNBOUNDED: VIEW <<inst, r, g>>, no constraint.  The pair (r, g) has
+     MC_Codec_Lh1Lock.cfg    depth-bounded: VIEW <<inst, r, g, n, rok>>, CONSTRAINT n < inst.depth.
+                             Every symbol sequence of length <= depth is explored; sequences of the
+                             same length that lead to the same pair (r, g) are one state, which is
+                             why nc^depth sequences need far fewer states.  (TLC evaluates the
+                             invariants on the successors it then discards for the constraint, so
+                             sequences of length exactly depth are checked too - tried with an
+                             invariant n <= depth - 1, which fails.)
+     MC_Codec_Lh1Lock_t.cfg  UNBOUNDED: VIEW <<inst, r, g, rok>>, no constraint.  The pair (r, g) has
                              finitely many values for a given (nc, limit) - all weights are below
                              limit + 1 - so TLC reaches a fixpoint = all symbol sequences of ALL
                              lengths for that instance.
@@ -60,23 +63,38 @@
                      (groups[num_groups..]) lists exactly the unused group ids, each once
      GRootSum        nodes[0].freq = sum of the leaf weights, and nc <= nodes[0].freq <= limit
 
-   Full scale (nc = 314, limit = 32768) is a separate TLC evaluation, not a model: see FullScale
-   at the end (run with a one-state spec; needs the symbol sequence as a constant). *)
+   Measured (16 workers):  .cfg   nine instances, 1,042,353 states generated, 210,138 distinct, 32 s
+                           _t.cfg seven instances, 16,636,255 generated, 3,405,208 distinct, 6.5 min
+   Each invariant was seen to fail on a deliberately wrong copy of Codec_Lh1Groups (tie rule of
+   the rebuild, no leader swap, `>` for `>=` at the limit, halving rounded down, `>=` in the
+   reference's search, flipped bit in read_code / in the walk, stale group_leader, no free_group).
+
+   Full scale (nc = 314, limit = 32768) is a TLC evaluation, not a model: FullLock / FullScale at
+   the end; how part G was compared with the compiled C code is described there. *)
 EXTENDS Codec_Lh1Groups
 
 CONSTANT Instances                      \* SUBSET [nc : Nat, limit : Nat, depth : Nat]
 ASSUME \A I \in Instances : 2 <= I.nc /\ I.nc < I.limit /\ I.limit <= 32768
 
-\* instance sets for the cfg files
+\* instance sets for the cfg files.  First update that rebuilds: number limit - nc + 1; afterwards the
+\* root weight is about half the limit, so a rebuild every (limit - nc) / 2 or so symbols.
 Quick == { [nc |-> 2, limit |-> 4, depth |-> 16],
            [nc |-> 3, limit |-> 6, depth |-> 12],
            [nc |-> 4, limit |-> 8, depth |-> 9],
-           [nc |-> 5, limit |-> 8, depth |-> 7] }
-Thorough == { [nc |-> 2, limit |-> 7, depth |-> 0],
-              [nc |-> 3, limit |-> 9, depth |-> 0],
-              [nc |-> 4, limit |-> 10, depth |-> 0],
-              [nc |-> 5, limit |-> 11, depth |-> 0],
-              [nc |-> 6, limit |-> 12, depth |-> 0] }
+           [nc |-> 5, limit |-> 8, depth |-> 7],
+           [nc |-> 3, limit |-> 16, depth |-> 24],
+           [nc |-> 4, limit |-> 12, depth |-> 16],
+           [nc |-> 6, limit |-> 10, depth |-> 9],
+           [nc |-> 9, limit |-> 12, depth |-> 6],
+           [nc |-> 16, limit |-> 18, depth |-> 4] }
+\* depth is not used by the unbounded configuration
+Thorough == { [nc |-> 2, limit |-> 32, depth |-> 0],
+              [nc |-> 3, limit |-> 24, depth |-> 0],
+              [nc |-> 4, limit |-> 16, depth |-> 0],
+              [nc |-> 5, limit |-> 14, depth |-> 0],
+              [nc |-> 6, limit |-> 12, depth |-> 0],
+              [nc |-> 7, limit |-> 9, depth |-> 0],
+              [nc |-> 8, limit |-> 10, depth |-> 0] }
 
 VARIABLES inst, r, g, n, rok, last
 vars == << inst, r, g, n, rok, last >>
@@ -216,27 +234,30 @@ GRootSum ==
 NoRebuildYet == n < inst.limit - inst.nc + 1
 
 (* ----------------------------------------------------------------------------- full scale
-   FullScale(syms): both structures at nc = 314, limit = 32768 driven by the symbol sequence syms
-   (e.g. the symbols of a real -lh1- stream, or a synthetic one long enough to pass the rebuild);
-   TRUE iff after every symbol StructLock's statement holds and every symbol of a sample has the
-   same code; additionally the reference here and Codec_Lh1's hard-wired one must agree, which the
-   driver module checks (it EXTENDS both).  Used from a scratch module outside the repository
-   checks; kept here so that the statement is under version control. *)
-FullLock(rr, gg, sample) ==
-  LET nc == rr.nc
-      t == RT(nc)
-      rt == RRoot(nc)
-      tab == GCodeTable(gg)
-  IN /\ ~gg.fault
-     /\ \A i \in 0..(t - 1) :
-           LET nd == gg.nodes[i]
-               k == rt - i
-           IN /\ nd.freq = rr.freq[k]
-              /\ IF nd.leaf THEN rr.son[k] = t + nd.child_index
-                            ELSE rr.son[k] < t /\ nd.child_index = rt - rr.son[k]
-              /\ (i # 0 => nd.parent = rt - rr.prnt[k])
-     /\ \A c \in 0..(nc - 1) : gg.leaf_nodes[c] = rt - rr.prnt[t + c]
-     /\ \A s \in sample : tab[s] # NoCode /\ tab[s] = RCode(rr, s)
+   FullLock(rr, gg, sample): StructLock's statement for arbitrary states (no variables), plus equal
+   codes for the symbols in sample.  FullScale(nc, limit, syms, every): both structures driven by
+   the symbol sequence syms, FullLock after every `every`-th symbol (root weights and fault flag
+   after each): <<ok, index of the first failing symbol or 0, r, g>>.
+
+   The binding of part G to the compiled C code is permanent since: harness/c/lh1groups_drv.c,
+   Trace_Lh1Groups.tla, checks/c02_groups.py (which also runs this module).  First done by hand
+   (2026-10-01): a driver that #includes lib/lh1_decoder.c (for small alphabets: a copy
+   whose two #defines NUM_CODES / TREE_REORDER_LIMIT are taken from -D options), callocs the
+   decoder, and either decodes a real stream with read_code/read_offset or calls
+   increment_for_code on a generated sequence; it prints the symbols, the bits read_code consumed
+   for each, and the complete nodes[]/leaf_nodes[]/groups[]/num_groups/group_leader[] every k
+   symbols.  A TLC evaluation then folds GUpdate / RUpdateX (and Codec_Lh1!Update) over the
+   symbols and requires, per symbol, GReadCode(g, bits) = RDecode(r, bits) = the symbol using all
+   bits and RCode(r, sym) = bits; per dump, field-for-field equality of g with the C struct
+   (stale entries included), FullLock(r, g, all symbols), and r = Codec_Lh1's hard-wired arrays.
+     nc = 314, limit = 32768: all 5028 symbols of test/compressed/lh1.bin (11 dumps)   accepted, 4 s
+                              70000 generated symbols, 3 rebuilds, 12 dumps (one right
+                              after the first rebuild, update 32455)                     accepted, 16 s
+     (nc, limit) = (2,4) (3,6) (3,9) (4,8) (5,8) (6,12) (7,9) (8,10) (16,18) (13,40): 2 x 3000
+                              generated symbols each, dump after EVERY symbol, 180..2000
+                              rebuilds per run                                           accepted
+     negative control: one altered group_leader entry in a dump                          rejected *)
+\* (FullLock is defined in Codec_Lh1Groups: Trace_Lh1Groups uses it too.)
 
 \* <<ok, index of the first symbol after which FullLock failed (0 = none), r, g>>
 FullScale(nc, limit, syms, every) ==
